@@ -94,7 +94,9 @@ func HarnessC11a() {
 	st := &lockedStore{s: newVStore("s1")}
 	cache := &lockedCache{c: &vCache{}}
 	cfg := symConfig(st, cache)
-	base, err := NewRoot(&CreateRemoteOptions{BranchFactor: bf}).LoadMast(vctx, cfg)
+	fm := verifBoundOr("FMT", 0) // 0 binary, 1 v1marshaler (raw two-stage decode), 2 v1marshaler (registered types)
+	cfg.UnmarshalerUsesRegisteredTypes = fm == 2
+	base, err := NewRoot(&CreateRemoteOptions{BranchFactor: bf, NodeFormat: fmtOf(fm)}).LoadMast(vctx, cfg)
 	verifAssert("C01.new.err", err == nil)
 	md := &symModel{}
 	buildAscending("build", base, md, N)
@@ -109,6 +111,10 @@ func HarnessC11a() {
 		verifAssert("C01.makeroot.err", err == nil)
 		if err != nil {
 			return
+		}
+		if verifBoundOr("FRESHCACHE", 0) == 1 {
+			// "restart": the shared cache is empty and fills by decoding what the trees load
+			cache.c = &vCache{}
 		}
 		t1, err = r.LoadMast(vctx, cfg)
 		verifAssert("C01.load.err", err == nil)
